@@ -810,6 +810,81 @@ func runC18(r *Run) {
 	}
 
 	// ---------- R11: every arbitrary-precision field is bounded before it is stored; nil base fee ----------
+	r.Rule("R12", "SHAPE.recipient-getters-agree (sibling agreement) + FLOW.priority-from-the-effective-price: (a) the three TxData implementations decide 'contract creation' the same way: GetTo has a single branch, on `tx.To == \"\"`, over whose true edge alone it returns nil — a transfer to the zero address keeps its recipient (a getter that also maps 0x00…00 to nil re-encodes such a transaction as a creation: another hash, another recovered sender); (b) the mempool priority GetTxPriority assigns derives from the message's EffectiveGasPrice(baseFee) (minus the base fee) — the same figure the fee is charged with — and from no other fee getter")
+	{
+		nGT := 0
+		for _, tn := range []string{"LegacyTx", "AccessListTx", "DynamicFeeTx"} {
+			fn, ok := P.FnOK("(*x/evm/types." + tn + ").GetTo")
+			if !ok {
+				r.Bad("R12", "anchor/"+tn+".GetTo", "", "not found")
+				continue
+			}
+			nGT++
+			nIf, okCond := 0, true
+			var nilEdges []Edge
+			for _, b := range fn.Blocks {
+				ifi, isIf := lastIf(b)
+				if !isIf {
+					continue
+				}
+				nIf++
+				bo, isB := ifi.Cond.(*ssa.BinOp)
+				if !isB || !(bo.Op == token.EQL || bo.Op == token.NEQ) {
+					okCond = false
+					continue
+				}
+				isTo := func(v ssa.Value) bool {
+					if _, isC := v.(*ssa.Call); isC {
+						return false
+					}
+					return backSlice(v).HasField(tn, "To") && !backSlice(v).HasCall(func(CallInfo) bool { return true })
+				}
+				isEmpty := func(v ssa.Value) bool { s, ok := constString(v); return ok && s == "" }
+				if !((isTo(bo.X) && isEmpty(bo.Y)) || (isTo(bo.Y) && isEmpty(bo.X))) {
+					okCond = false
+					continue
+				}
+				if bo.Op == token.EQL {
+					nilEdges = append(nilEdges, Edge{b, 0})
+				} else {
+					nilEdges = append(nilEdges, Edge{b, 1})
+				}
+			}
+			w := PathQuery{Fn: fn, Target: func(in ssa.Instruction) bool {
+				ret, ok := in.(*ssa.Return)
+				return ok && len(ret.Results) == 1 && isNilConst(ret.Results[0])
+			}, DelEdge: edgeSet(nilEdges)}.Search()
+			r.Check(okCond && nIf == 1 && w == nil, "R12", fnID(fn)+"#nil-exactly-for-the-empty-recipient", P.Pos(fnPos(fn)), "one branch, on To == \"\"; nil only over its true edge",
+				"GetTo of "+tn+" does not decide 'no recipient' by To == \"\" alone: the three transaction types disagree on which stored recipients mean contract creation, and a transaction of this type to such a recipient (the zero address) is re-encoded without it — its hash and recovered sender change", P.witness(w)...)
+		}
+		r.Floor("R12", "GetTo implementations", nGT, 3)
+		if gp, ok := P.FnOK("x/evm/types.GetTxPriority"); ok {
+			okP, bad := false, ""
+			eachInstr(gp, func(in ssa.Instruction) {
+				ret, ok := in.(*ssa.Return)
+				if !ok {
+					return
+				}
+				sl := backSlice(ret.Results...)
+				if sl.HasCall(func(g CallInfo) bool { return g.Name == "EffectiveGasPrice" }) {
+					okP = true
+				}
+				sl.Any(func(v ssa.Value) bool {
+					if c, ok := v.(*ssa.Call); ok {
+						switch n := callInfo(c).Name; n {
+						case "GetGasTipCap", "GetGasFeeCap", "GetGasPrice", "TxType":
+							bad = n
+						}
+					}
+					return false
+				})
+			})
+			r.Check(okP && bad == "", "R12", fnID(gp)+"#priority-from-the-effective-price", P.Pos(fnPos(gp)), "derives from EffectiveGasPrice(baseFee) and no other fee getter",
+				"the mempool priority is computed from "+bad+" instead of (only) the message's EffectiveGasPrice(baseFee): a dynamic-fee transaction whose tip cap exceeds fee cap − base fee gets a priority it does not pay for")
+		} else {
+			r.Bad("R12", "anchor/GetTxPriority", "", "not found")
+		}
+	}
 	r.Rule("R11", "PATH.wire-integers-bounded-before-storing + nil-base-fee: (a) the constructors that wrap a typed Ethereum transaction (newAccessListTx, NewDynamicFeeTx) store the chain id with SetSignatureValues, which converts with the panicking NewIntFromBigInt — the call is reachable only after an error-checked SafeNewIntFromBigInt / IsValidInt256 of a value derived from tx.ChainId(), as for every amount field: a chain id above 256 bits must be an error like for a legacy transaction, not a panic; (b) DynamicFeeTx.EffectiveGasPrice reaches the arithmetic helper only over the edge on which the base fee is not nil — without a base fee (London inactive) go-ethereum prices the transaction at its fee cap, the helper dereferences the nil and the minimum-gas-price decorator panics on every dynamic-fee transaction")
 	for _, id := range []string{evmTypes + ".newAccessListTx", evmTypes + ".NewDynamicFeeTx"} {
 		fn, ok := P.FnOK(id)
